@@ -88,7 +88,7 @@ def compare(pid, case, ctx, cfgs, extended=False, expect=None, strata_fn=None):
         # the same question asked under another, answer-neutral circumstance (chosen by case hash)
         h = int(gen.case_hash([case.get("atoms"), case.get("base"), case.get("queries")]), 16) % 20
         variant = {0: "parallel", 1: "parallel", 2: "debug-logging", 3: "recycled-base-object",
-                   4: "second-call", 5: "undeclared-atom"}.get(h, "plain")
+                   4: "second-call", 5: "undeclared-atom", 6: "warm-query-objects"}.get(h, "plain")
     import logging
     liblog = logging.getLogger("inference")
     if variant == "debug-logging":
@@ -109,6 +109,10 @@ def compare(pid, case, ctx, cfgs, extended=False, expect=None, strata_fn=None):
         # the parser records but never enforces the declaration); the semantics is unaffected
         ctx.stratum("variant:signature-omits-a-used-atom")
         atoms = list(atoms[:-1])
+    if variant == "warm-query-objects":
+        # the query objects have a past: used the way a belief-base member or an acceptance test
+        # uses a Conditional (all public formula builders called) before they are asked
+        ctx.stratum("variant:warm-query-objects")
     if variant == "second-call":
         # the batch is the SECOND inference() call of its manager (preprocessing is skipped then)
         ctx.stratum("variant:second-call-on-manager")
@@ -123,6 +127,8 @@ def compare(pid, case, ctx, cfgs, extended=False, expect=None, strata_fn=None):
                 res = answers_on_recycled(recycled, atoms, base, queries, cfg, extended)
             elif variant == "second-call":
                 res = answers_second_call(atoms, base, queries, cfg, extended)
+            elif variant == "warm-query-objects":
+                res = answers_warm_queries(atoms, base, queries, cfg, extended)
             else:
                 res = bridge.answers(atoms, base, queries, cfg, weakly=extended, **kw)
         finally:
@@ -180,6 +186,22 @@ def answers_second_call(atoms, base, queries, cfg, weakly):
         if isinstance(e, (KeyboardInterrupt, SystemExit, MemoryError)):
             raise
         return ("exc", bridge.exc_symptom(e), f"{type(e).__name__}: {e}"[:300])
+    return ("ok", [r["result"] for r in rows], rows)
+
+
+def answers_warm_queries(atoms, base, queries, cfg, weakly):
+    L = bridge.lib()
+    system, pm = bridge.cfg_of(cfg)
+    try:
+        q = bridge.mk_queries(queries)
+        for qc in q.conditionals.values():
+            qc.make_A_then_B(), qc.make_A_then_not_B(), qc.make_not_A_or_B(), qc.make_B()
+        man = L["InferenceManager"](bridge.mk_bb(atoms, base), system, pmaxsat_solver=pm, weakly=weakly)
+        rows = bridge.df_rows(man.inference(q))
+    except BaseException as e:  # noqa: BLE001
+        if isinstance(e, (KeyboardInterrupt, SystemExit, MemoryError)):
+            raise
+        return ("exc", bridge.exc_symptom(e), f"{type(e).__name__}: {e}"[:300], bridge.exc_origin(e))
     return ("ok", [r["result"] for r in rows], rows)
 
 
